@@ -22,6 +22,7 @@ RULE = (
     "inclusive, plus for metadata channels the latest file before start when no file is at start), no duplicates, "
     "per-channel time order (reversed when reverse), set(reverse)==set(forward), no exception. Non-trivial: a time "
     "window over a channel with >= 2 subdirectories, or an empty subdirectory, or reverse."
+    ' Also: naive datetimes, bases at the epoch / 10^9 s / 2^32 s, prefixes that begin with tmp or hold regex / format characters, channels recorded at the same time, and a differential run of the `drf ls --abs` command line (both time spellings, default and explicit flags) against lsdrf.'
 )
 ASSUMPTIONS = ["files are empty placeholders (listing never opens them)",
                "for a legacy metadata.h5 channel, and when a subdirectory vanishes, the forward-fill file is accepted present or absent"]
